@@ -88,6 +88,9 @@ def run(ctx):
                 tables.append(("scale k=%d,%d" % (k, k2), ["-lift", "scale", "-k", str(k), "-k2", str(k2)], ["mul", "quo", "lsh", "rsh"]))
         for k in (30, 31, 61, 62, 63, 99):
             tables.append(("scaledividend k=%d" % k, ["-lift", "scaledividend", "-k", str(k)], ["quo"]))
+        # shift amounts and operands beyond 2^16 bits (seeded change C06-m6: a shortcut for shift counts above 0xFFFF)
+        for k in (65535, 65536, 65537, 100003):
+            tables.append(("scale k=%d,0" % k, ["-lift", "scale", "-k", str(k), "-k2", "0"], ["lsh", "rsh"]))
         for k in exps + [40, 48, 56]:
             tables.append(("box k=%d" % k, ["-lift", "box", "-k", str(k)], ["and", "or"]))
         for k in (7, 31, 32, 33, 36, 40, 48, 63, 64, 100):
@@ -102,6 +105,8 @@ def run(ctx):
         # one just above 2^32, and a seeded one
         for (k, k2) in ((0, rng.choice((63, 64))), (rng.choice((32, 33)), rng.choice((0, 31))), (rng.choice(exps), rng.choice(exps))):
             tables.append(("scale k=%d,%d" % (k, k2), ["-lift", "scale", "-k", str(k), "-k2", str(k2)], ["mul", "quo", "lsh", "rsh"]))
+        kbig = rng.choice((65536, 65537, 70001))
+        tables.append(("scale k=%d,0" % kbig, ["-lift", "scale", "-k", str(kbig), "-k2", "0"], ["rsh"]))
         # the dividend alone at -2^63 / 2^63 (even bounds x 2^62) against the divisors -2 .. 2, and one more word boundary
         for k in (62, rng.choice((30, 31, 61, 63))):
             tables.append(("scaledividend k=%d" % k, ["-lift", "scaledividend", "-k", str(k)], ["quo"]))
@@ -127,6 +132,10 @@ def run(ctx):
                 continue
             raise ToolingError("intervalreplay failed: " + r.stderr[-2000:])
         st = json.loads(r.stdout)
+        if st.get("kept_results_changed") or st.get("results_sharing_storage_with_kept"):
+            ctx.violation("lib/interval: results share storage across calls in table '%s': %d kept results changed by later calls, %d results share a *big.Int with a kept result; e.g. %s" % (
+                name, st.get("kept_results_changed", 0), st.get("results_sharing_storage_with_kept", 0), st.get("history_example")),
+                {"key": "storage:call-history", "table": name, "args": args, "example": st.get("history_example")})
         if st["plain_vs_try_mismatch"]:
             ctx.violation("Foo and TryFoo disagree on %d rows of table '%s'" % (st["plain_vs_try_mismatch"], name), {"table": name, "args": args})
         table = open(out).read()
